@@ -139,9 +139,13 @@ func join(l, r *Rel, j gen.Join) (*Rel, error) {
 
 // Output is the reference result of a query.
 type Output struct {
-	Header []string
-	Quals  []string // table id of plain column items ("" otherwise)
-	Rows   [][]interface{}
+	// Header: the column name the property determines for each output column -
+	// the column's own name, or the alias. HeaderFree marks columns (unaliased
+	// expressions, literals, aggregates) whose heading is the implementation's choice.
+	HeaderFree []bool
+	Header     []string
+	Quals      []string // table id of plain column items ("" otherwise)
+	Rows       [][]interface{}
 	// ORDER BY: indexes of the key columns in the output and their direction.
 	KeyIdx  []int
 	KeyDesc []bool
@@ -288,6 +292,10 @@ func Eval(db *model.DB, q gen.Select) (*Output, error) {
 		if it.Alias != "" {
 			out.Header[len(out.Header)-1] = it.Alias
 		}
+	}
+	for _, p := range projs {
+		free := p.kind != "col" && p.it.Alias == ""
+		out.HeaderFree = append(out.HeaderFree, free)
 	}
 	project := func(row []interface{}) ([]interface{}, error) {
 		var o []interface{}
